@@ -81,7 +81,7 @@ func genC16(rt *rapid.T) C16Case {
 		// stored Go-quoted: a replay file (JSON) could not carry invalid UTF-8 otherwise
 		c.Queries = append(c.Queries, strconv.Quote(rapid.SampledFrom(pool[:rapid.SampledFrom([]int{4, 4, 10, len(pool)}).Draw(rt, "poolcut")]).Draw(rt, "query")))
 	}
-	kinds := []string{"add", "add", "add", "add", "add", "save", "save", "load", "load", "clear", "advance", "advance", "damage", "handmade"}
+	kinds := swarmKinds(rt, []string{"add", "add", "add", "add", "add", "save", "save", "load", "load", "clear", "advance", "advance", "damage", "handmade"}, "add")
 	opGen := rapid.Custom(func(rt *rapid.T) C16Op {
 		op := C16Op{Kind: rapid.SampledFrom(kinds).Draw(rt, "kind")}
 		switch op.Kind {
